@@ -120,6 +120,12 @@ def norm3 (sq : Rat → Rat) (v : V3) : Rat :=
     not use the result in that case (mirrors the C++ data flow). -/
 def normalize3 (sq : Rat → Rat) (v : V3) : V3 := v.divs (norm3 sq v)
 
+/- Since a1cdfe7 `Normalize()` / `Normalized()` divide in the scaled domain: with `p = 2^e` the power of two of
+   `Vector::Norm()` and `S = Σ (c_i/p)²`, each component is `(c_i/p) / sqrt(S)` instead of `c_i / (p·sqrt(S))`.
+   Over the rationals `(c/p)/sq S = c/(p·sq S)` (`p ≠ 0`), i.e. exactly `v.divs (norm3 sq v)` / `v.map (· / normL sq v)`:
+   the model keeps that form; the change only matters in floating point, where a subnormal `p·sqrt(S)` has too few
+   significant bits to divide by (the correspondence run covers lengths down to 5e-324). -/
+
 /-- argument of `acos` in `Angle(v1,v2) = acos(v1*v2 / (v1.Norm()*v2.Norm()))`.
     `.error`: `Vector::Dot` rejects differing dimensions with a diagnostic.
     `.ok none`: a zero vector (0/0 in the C++). -/
